@@ -8,6 +8,8 @@ TSAN = ["-fsanitize=thread", "-g"]
 DRIVERS = [
     dict(name="mt_verif32", src="mt.cpp", defines=["LIFE_VERIF"], ops=["mt32"]),
     dict(name="mt_noop", src="mt.cpp", defines=["LIFE_NOOP"], ops=["mtn"]),
+    dict(name="mt_noop_etls", src="mt.cpp", defines=["LIFE_NOOP", "RLBOX_EMBEDDER_PROVIDES_TLS_STATIC_VARIABLES"], ops=["mtne"]),     # embedder-provided TLS
+    dict(name="mt_dylib", src="mt.cpp", defines=["LIFE_DYLIB"], ops=["mtd"]),
     dict(name="mt_verif32_tsan", src="mt.cpp", defines=["LIFE_VERIF", "LIFE_VERIF16", "LIFE_NO_FIXED_BASE"], ops=["tsan-mt32"], flags=TSAN),
     dict(name="mt_noop_tsan", src="mt.cpp", defines=["LIFE_NOOP", "LIFE_NO_FIXED_BASE"], ops=["tsan-mtn"], flags=TSAN),
 ]
@@ -35,7 +37,7 @@ def history(rng, n):
 def gen_cases(tier, rng):
     q = tier == "quick"
     cases = []
-    for op, reps in (("mt32", 20 if q else 100), ("mtn", 20 if q else 100)):
+    for op, reps in (("mt32", 20 if q else 100), ("mtn", 20 if q else 100), ("mtne", 20 if q else 100), ("mtd", 20 if q else 100)):
         for nth in (2, 3, 4, 8, 16):
             for _ in range(16 if q else 200):
                 hs = [" ".join(history(rng, rng.randrange(4, 18))) for _ in range(nth)]
@@ -43,6 +45,11 @@ def gen_cases(tier, rng):
         # every thread hammers create / example lookup / destroy: overlapping list updates and scans
         for nth in (2, 4, 16):
             hs = [" ".join(["c:0:1", "x:0:64", "d:0"] * 12) for _ in range(nth)]
+            cases.append("%s %d | %s" % (op, reps, " | ".join(hs)))
+        # every thread is inside its own sandbox and takes callbacks while the others do the same: the back end's
+        # per-thread record (current sandbox, last entry point) must be per thread
+        for nth in (2, 4, 8):
+            hs = [" ".join(["c:0:1", "r:0:0:%d" % (1 + k % 3), "r:1:0:%d" % (4 + k % 3)] + ["go:0", "go:1"] * 10) for k in range(nth)]
             cases.append("%s %d | %s" % (op, reps, " | ".join(hs)))
     return cases
 
